@@ -13,6 +13,12 @@
 //!   * bookmark structure is unchanged and every bookmark target is rho(old target) (a target outside the trailer-reachable
 //!     part extends rho and is compared too); a dangling target (also the conventional (0,0)) stays dangling;
 //!   * the objects outside the matched part are the same multiset once references are erased ("changes identifiers only").
+//! The lock-step walk descends through arrays, dictionaries and stream dictionaries without any depth limit of its own
+//! ("every reference" of the property is every reference position, however many containers enclose it); family D
+//! enumerates that nesting depth well past the 32 levels the crate's *reader* accepts, because documents built or edited
+//! in memory are not bound by the reader. Such deep values are recorded in a flat (preorder token) JSON form so that a
+//! recorded failure can be parsed back (serde_json refuses JSON nested deeper than 128), and the module runs on threads
+//! with a large stack.
 #![allow(dead_code)]
 use crate::c03::{obj_from_json, obj_json};
 use crate::common::*;
@@ -58,10 +64,74 @@ pub fn build_doc(c: &Case) -> Document {
     doc
 }
 
+/// number of containers on the longest path from `o` down to a leaf
+fn container_depth(o: &Object) -> usize {
+    match o {
+        Object::Array(a) => 1 + a.iter().map(container_depth).max().unwrap_or(0),
+        Object::Dictionary(d) => 1 + d.iter().map(|(_, v)| container_depth(v)).max().unwrap_or(0),
+        Object::Stream(s) => 1 + s.dict.iter().map(|(_, v)| container_depth(v)).max().unwrap_or(0),
+        _ => 0,
+    }
+}
+
+/// values nested deeper than this are written in the flat form
+const FLAT_FROM: usize = 8;
+
+/// flat (preorder) form of a value: ["arr", n] followed by n values; ["dict", n] followed by n x (hex key, value);
+/// ["stream", n, hex content] followed by n x (hex key, value); any other value as `obj_json` writes it
+fn flat_enc(o: &Object, out: &mut Vec<Value>) {
+    let entries = |d: &Dictionary, out: &mut Vec<Value>| for (k, v) in d.iter() { out.push(json!(hex(k))); flat_enc(v, out); };
+    match o {
+        Object::Array(a) => { out.push(json!(["arr", a.len()])); for x in a { flat_enc(x, out); } }
+        Object::Dictionary(d) => { out.push(json!(["dict", d.len()])); entries(d, out); }
+        Object::Stream(s) => { out.push(json!(["stream", s.dict.len(), hex(&s.content)])); entries(&s.dict, out); }
+        leaf => out.push(obj_json(leaf)),
+    }
+}
+
+fn flat_dec(t: &[Value], pos: &mut usize) -> Object {
+    let tok = match t.get(*pos) { Some(v) => v, None => return Object::Null };
+    *pos += 1;
+    let head = match tok.as_array() { Some(h) => h, None => return obj_from_json(tok) };
+    let n = head.get(1).and_then(|x| x.as_u64()).unwrap_or(0) as usize;
+    let entries = |t: &[Value], pos: &mut usize| {
+        let mut d = Dictionary::new();
+        for _ in 0..n { let k = unhex(t.get(*pos).and_then(|x| x.as_str()).unwrap_or("")); *pos += 1; let v = flat_dec(t, pos); d.set(k, v); }
+        d
+    };
+    match head.first().and_then(|x| x.as_str()).unwrap_or("") {
+        "arr" => Object::Array((0..n).map(|_| flat_dec(t, pos)).collect()),
+        "dict" => Object::Dictionary(entries(t, pos)),
+        "stream" => { let content = unhex(head.get(2).and_then(|x| x.as_str()).unwrap_or("")); let mut st = Stream::new(Dictionary::new(), content); st.dict = entries(t, pos); Object::Stream(st) }
+        _ => Object::Null,
+    }
+}
+
+/// (key, value) under which a value is recorded: `<key>` nested as everywhere else, or `<key>_flat` when it is deep
+fn value_json(key: &str, o: &Object) -> (String, Value) {
+    if container_depth(o) > FLAT_FROM { let mut out = vec![]; flat_enc(o, &mut out); (format!("{}_flat", key), Value::Array(out)) } else { (key.to_string(), obj_json(o)) }
+}
+
+fn value_from_json(v: &Value, key: &str) -> Object {
+    match v[format!("{}_flat", key).as_str()].as_array() { Some(t) => flat_dec(t, &mut 0), None => obj_from_json(&v[key]) }
+}
+
 pub fn case_json(c: &Case) -> Value {
+    let objects: Vec<Value> = c.objects.iter().map(|(id, o)| {
+        let (k, v) = value_json("obj", o);
+        let mut e = json!({"id": id.0, "gen": id.1});
+        e[k.as_str()] = v;
+        e
+    }).collect();
+    let (tk, tv) = value_json("trailer", &Object::Dictionary(c.trailer.clone()));
+    let mut j = case_json_rest(c, objects);
+    j[tk.as_str()] = tv;
+    j
+}
+
+fn case_json_rest(c: &Case, objects: Vec<Value>) -> Value {
     json!({
-        "objects": c.objects.iter().map(|(id, o)| json!({"id": id.0, "gen": id.1, "obj": obj_json(o)})).collect::<Vec<_>>(),
-        "trailer": obj_json(&Object::Dictionary(c.trailer.clone())),
+        "objects": objects,
         "bookmarks": c.bookmarks.iter().map(|(p, par)| json!({"page": [p.0, p.1], "parent": par})).collect::<Vec<_>>(),
         "start": c.start,
         "tag": c.tag,
@@ -70,10 +140,10 @@ pub fn case_json(c: &Case) -> Value {
 }
 
 pub fn case_from_json(v: &Value) -> Case {
-    let trailer = match obj_from_json(&v["trailer"]) { Object::Dictionary(d) => d, _ => Dictionary::new() };
+    let trailer = match value_from_json(v, "trailer") { Object::Dictionary(d) => d, _ => Dictionary::new() };
     Case {
         objects: v["objects"].as_array().cloned().unwrap_or_default().iter()
-            .map(|e| ((e["id"].as_u64().unwrap_or(0) as u32, e["gen"].as_u64().unwrap_or(0) as u16), obj_from_json(&e["obj"]))).collect(),
+            .map(|e| ((e["id"].as_u64().unwrap_or(0) as u32, e["gen"].as_u64().unwrap_or(0) as u16), value_from_json(e, "obj"))).collect(),
         trailer,
         bookmarks: v["bookmarks"].as_array().cloned().unwrap_or_default().iter()
             .map(|e| ((e["page"][0].as_u64().unwrap_or(0) as u32, e["page"][1].as_u64().unwrap_or(0) as u16), e["parent"].as_u64().map(|p| p as usize))).collect(),
@@ -104,6 +174,14 @@ struct Oracle<'a> {
     fails: Vec<(String, String)>,
     via_bookmark: bool,
     ctx: Option<(ObjectId, ObjectId)>,
+    /// number of arrays / dictionaries / stream dictionaries entered below the trailer value or object being compared
+    depth: usize,
+}
+
+/// keep a detail readable when the values in it are hundreds of levels deep
+fn clip(mut t: String) -> String {
+    if t.chars().count() > 900 { t = t.chars().take(900).collect(); t.push_str(" ..."); }
+    t
 }
 
 impl<'a> Oracle<'a> {
@@ -111,7 +189,8 @@ impl<'a> Oracle<'a> {
         let obl = if self.via_bookmark { "bookmark-target-content" } else { obl };
         if !self.fails.iter().any(|f| f.0 == obl) {
             let place = match self.ctx { None => "trailer".to_string(), Some((kb, ka)) => format!("old object {} {} / new object {} {}", kb.0, kb.1, ka.0, ka.1) };
-            self.fails.push((obl.to_string(), format!("{} (in {})", detail, place)));
+            let nesting = if self.depth > 0 { format!(", inside {} nested container(s)", self.depth) } else { String::new() };
+            self.fails.push((obl.to_string(), format!("{} (in {}{})", clip(detail), place, nesting)));
         }
     }
 
@@ -166,12 +245,16 @@ impl<'a> Oracle<'a> {
             }
             (Object::Array(x), Object::Array(y)) => {
                 if x.len() != y.len() { self.fail("content-equal", format!("array {:?} became {:?}", x, y)); return; }
+                self.depth += 1;
                 for (p, q) in x.iter().zip(y.iter()) { self.cmp(p, q); }
+                self.depth -= 1;
             }
-            (Object::Dictionary(x), Object::Dictionary(y)) => self.cmp_dict(x, y),
+            (Object::Dictionary(x), Object::Dictionary(y)) => { self.depth += 1; self.cmp_dict(x, y); self.depth -= 1; }
             (Object::Stream(x), Object::Stream(y)) => {
                 if x.content != y.content { self.fail("content-equal", "stream content changed".to_string()); }
+                self.depth += 1;
                 self.cmp_dict(&x.dict, &y.dict);
+                self.depth -= 1;
             }
             (Object::Reference(_), _) | (_, Object::Reference(_)) | (Object::Array(_), _) | (Object::Dictionary(_), _) | (Object::Stream(_), _) => {
                 self.fail("content-equal", format!("{:?} became {:?}", ob, oa));
@@ -247,7 +330,7 @@ fn erase_refs(o: &Object) -> Object {
 
 /// the executable postcondition: all violated obligations (at most one entry per obligation)
 pub fn postcondition(b: &Document, a: &Document, start: u32) -> Vec<(String, String)> {
-    let mut o = Oracle { b, a, rho: BTreeMap::new(), inv: BTreeMap::new(), queue: VecDeque::new(), fails: vec![], via_bookmark: false, ctx: None };
+    let mut o = Oracle { b, a, rho: BTreeMap::new(), inv: BTreeMap::new(), queue: VecDeque::new(), fails: vec![], via_bookmark: false, ctx: None, depth: 0 };
     let n = b.objects.len() as u64;
     // 1. identifiers
     if a.objects.len() as u64 != n {
@@ -374,6 +457,7 @@ pub fn check_case(c: &Case) -> Vec<(String, String)> {
 // the enumerated family
 // ---------------------------------------------------------------------------------------------------------------------
 
+const BIG_STACK: usize = 256 << 20;
 const SLOT: u32 = 1_000_000;
 const DANG: u32 = 2_000_000;
 fn sid(i: usize) -> ObjectId { (SLOT + i as u32, 0) }
@@ -601,6 +685,77 @@ fn sub_families(thorough: bool) -> Vec<SubB> {
     }
 }
 
+// ---- family D: nesting depth of a reference position ------------------------------------------------------------------
+//
+// The property speaks of *every* reference of the trailer and of every reachable object / bookmark target; a reference
+// position is a path through arrays, dictionaries and stream dictionaries of any length. Families A and B keep that path
+// at <= 4 containers; here its length is the enumerated dimension, well beyond the 32 levels the reader would accept
+// (a document built or edited in memory has no such limit), crossed with what the containers are, where the deep value
+// lives, what the reference points to, and the id sets / permutations / starts of the other families.
+
+const D_SHAPES: usize = 4;
+const D_LOCS: usize = 3;
+const D_TARGETS: usize = 5;
+fn d_shape_name(shape: usize) -> &'static str { ["arrays", "dictionaries", "dictionary/array alternating", "stream, then array/dictionary alternating"][shape] }
+fn d_loc_name(loc: usize) -> &'static str { ["object referenced from the catalog", "direct trailer value", "object that is only a bookmark target"][loc] }
+fn d_target_name(t: usize) -> &'static str { ["another object", "the enclosing object (trailer: the catalog)", "dangling: smallest free number", "dangling: existing number, wrong generation", "dangling: beyond the largest number"][t] }
+
+/// `levels` containers around `inner`; container k (1 = outermost) holds the integer k, `rung(k)` if any, and container k+1
+/// (the innermost one holds `inner`): `inner` sits inside `levels` containers, rung k inside k
+fn nest(shape: usize, levels: usize, inner: Object, rung: &dyn Fn(usize) -> Option<Object>) -> Object {
+    let mut o = inner;
+    for k in (1..=levels).rev() {
+        // 0 array, 1 dictionary, 2 stream
+        let kind = match shape { 0 => 0, 1 => 1, 2 => k % 2, _ => if k == 1 { 2 } else { 1 - k % 2 } };
+        let r = rung(k);
+        o = if kind == 0 {
+            let mut v = vec![Object::Integer(k as i64)];
+            if let Some(r) = r { v.push(r); }
+            v.push(o);
+            Object::Array(v)
+        } else {
+            let mut v: Vec<(&[u8], Object)> = vec![(b"N", Object::Integer(k as i64))];
+            if let Some(r) = r { v.push((b"R", r)); }
+            v.push((b"K", o));
+            if kind == 1 { Object::Dictionary(dict(v)) } else { let mut st = Stream::new(Dictionary::new(), b"q Q".to_vec()); st.dict = dict(v); Object::Stream(st) }
+        };
+    }
+    o
+}
+
+/// slots: 0 catalog, 1 holder, 2 target (a string). `loc` 0: the catalog's /Deep is a reference to the holder, which is
+/// the nest; 1: the trailer's /Deep is the nest itself (the holder is a small dictionary pointing back to the catalog);
+/// 2: the holder is the nest and nothing but a bookmark points to it. `ladder`: every container k also holds a reference
+/// (k mod 5 selects among the five targets), so that references sit at every depth 1..levels of one value.
+fn deep_template(levels: usize, shape: usize, ladder: bool, loc: usize, target: usize) -> Template {
+    let this = if loc == 1 { 0 } else { 1 };
+    let pick = |t: usize| -> Object { match t { 0 => s(2), 1 => s(this), k => d(k - 2) } };
+    let rung = |k: usize| -> Option<Object> { if ladder { Some(pick(k % D_TARGETS)) } else { None } };
+    let value = nest(shape, levels, pick(target), &rung);
+    let mut cat: Vec<(&[u8], Object)> = vec![(b"Type", name(b"Catalog"))];
+    if loc != 2 { cat.push((b"Deep", s(1))); }
+    let mut trailer = dict(vec![(b"Root", s(0))]);
+    let holder = if loc == 1 { trailer.set("Deep", value); Object::Dictionary(dict(vec![(b"Back", s(0))])) } else { value };
+    let target_obj = Object::String(b"the target".to_vec(), lopdf::StringFormat::Literal);
+    Template {
+        label: format!("D depth={} containers={} {} in {}; innermost reference -> {}", levels, d_shape_name(shape), if ladder { "+ a reference in every container" } else { "one reference" }, d_loc_name(loc), d_target_name(target)),
+        objs: vec![Object::Dictionary(dict(cat)), holder, target_obj],
+        trailer,
+        bookmark_sets: vec![if loc == 2 { vec![(sid(1), None)] } else { vec![] }],
+    }
+}
+
+/// the enumerated nesting depths: every depth up to `dense`, then around powers of two (where an implementation limit
+/// would plausibly sit)
+fn deep_dense(thorough: bool) -> usize { if thorough { 100 } else { 48 } }
+fn deep_levels(thorough: bool) -> Vec<usize> {
+    let dense = deep_dense(thorough);
+    let mut v: Vec<usize> = (0..=dense).collect();
+    let around: &[usize] = if thorough { &[64, 128, 256, 512] } else { &[64, 128] };
+    for p in around { for l in [p - 1, *p, p + 1] { if l > dense { v.push(l); } } }
+    v
+}
+
 // ---- blocks (units of parallel work) ---------------------------------------------------------------------------------
 
 enum Block {
@@ -610,6 +765,8 @@ enum Block {
     B { sub: usize, code: u64 },
     /// extreme start values on small graphs
     E { sub: usize, code: u64 },
+    /// deep nesting: depth x container shape x single/ladder x location; inner: targets x id sets x permutations x starts
+    D { levels: usize, shape: usize, ladder: bool, loc: usize },
 }
 
 fn extreme_starts(n: usize) -> Vec<(u32, &'static str)> {
@@ -727,6 +884,30 @@ fn run_block(b: &Block, templates: &[Template], subs: &[SubB], ext_subs: &[SubB]
                 }
             }
         }
+        Block::D { levels, shape, ladder, loc } => {
+            for target in 0..D_TARGETS {
+                let tp = deep_template(*levels, *shape, *ladder, *loc, target);
+                for idset in 0..3 {
+                    let base = id_set(idset, 3);
+                    let dang = dangling_for(&base);
+                    let tag = id_set_tag(idset, 3);
+                    for perm in permutations(3) {
+                        let ids: Vec<ObjectId> = perm.iter().map(|p| base[*p]).collect();
+                        for start in starts_a {
+                            let c = instantiate(&tp, 0, &ids, &dang, *start, tag);
+                            eval(&c, &mut rep);
+                            // harness self-check, once per block and target: the recorded form of a deep case, written
+                            // as text and parsed again, gives the case back (so that its failures can be replayed)
+                            if idset == 1 && *start == starts_a[0] && perm[0] == 0 && perm[1] == 1 {
+                                let back = serde_json::from_str::<Value>(&case_json(&c).to_string()).map(|v| case_from_json(&v));
+                                let same = matches!(&back, Ok(b) if b.objects == c.objects && b.trailer == c.trailer && b.bookmarks == c.bookmarks && b.start == c.start && b.tag == c.tag);
+                                if !same { rep.fail("harness-replay-form", format!("the recorded form of this case does not parse back to it ({})", back.err().map(|e| e.to_string()).unwrap_or_else(|| "different case".into())), json!({"label": c.label}), String::new()); }
+                            }
+                        }
+                    }
+                }
+            }
+        }
         Block::B { sub, code } | Block::E { sub, code } => {
             let extreme = matches!(b, Block::E { .. });
             let sb = if extreme { &ext_subs[*sub] } else { &subs[*sub] };
@@ -770,17 +951,31 @@ pub fn run(thorough: bool) -> Report {
     for idset in 0..2 {
         for (ti, tp) in templates.iter().enumerate() { for perm in permutations(tp.objs.len()) { blocks.push(Block::A { t: ti, idset, perm, extreme: false }); } }
     }
+    // deep nesting, shallow before deep (depth 0 is one bare reference: no containers to vary)
+    let levels = deep_levels(thorough);
+    let dense = deep_dense(thorough);
+    for l in &levels {
+        for loc in 0..D_LOCS { for shape in 0..D_SHAPES { for ladder in [false, true] {
+            if *l == 0 && (shape > 0 || ladder) { continue; }
+            blocks.push(Block::D { levels: *l, shape, ladder, loc });
+        } } }
+    }
     for (ti, tp) in templates.iter().enumerate() { for perm in permutations(tp.objs.len()) { blocks.push(Block::A { t: ti, idset: 2, perm, extreme: false }); } }
     for (si, sb) in ext_subs.iter().enumerate() { for code in 0..sb.codes() { blocks.push(Block::E { sub: si, code }); } }
     for (ti, tp) in templates.iter().enumerate() {
         if tp.objs.len() <= 4 { for idset in 0..2 { for perm in permutations(tp.objs.len()) { blocks.push(Block::A { t: ti, idset, perm, extreme: true }); } } }
     }
 
+    // own pool: the library's walk, the oracle's walk, clone and drop all recurse once per container, so give the workers
+    // a stack that is far larger than a nest of a few hundred containers needs
+    let pool = rayon::ThreadPoolBuilder::new().stack_size(BIG_STACK).build().expect("thread pool");
     let total = quiet(|| {
-        blocks
-            .par_iter()
-            .map(|b| run_block(b, &templates, &subs, &ext_subs, &starts_a))
-            .reduce(|| Report::new("", false), merge_capped)
+        pool.install(|| {
+            blocks
+                .par_iter()
+                .map(|b| run_block(b, &templates, &subs, &ext_subs, &starts_a))
+                .reduce(|| Report::new("", false), merge_capped)
+        })
     });
 
     let mut bound = String::new();
@@ -791,7 +986,10 @@ pub fn run(thorough: bool) -> Report {
     bound.push_str("Family B (general graphs; object i is container kind (i+rotation) mod 5 of {dict, array with nested array, stream with nested dict, dict/array/dict nesting, bare reference}; dangling ids = smallest free number, an existing number with a wrong generation; trailer shapes 0 Root, 1 Root+Info->last, 2 Root+Info->dangling, 3 Root+direct array with ref and nested dangling ref; bookmark sets 0 none, 1 one per object + dangling child): ");
     bound.push_str(&subs.iter().map(|s| s.describe()).collect::<Vec<_>>().join(" | "));
     bound.push_str(". Extreme starts (tagged): start 0, u32::MAX-n, u32::MAX-n+1 (and 5, u32::MAX for the empty document) on all graphs of 0..2 objects (1 dangling id, trailers 0 and 3, id sets 0,1, both bookmark sets) and all page-tree templates of <= 4 objects (id sets 0,1, all permutations, all bookmark sets). ");
-    bound.push_str("Structures are at most 7 objects, nesting depth <= 4, bookmark trees acyclic, so no case can hang or overflow the stack; every library call and the oracle run under catch_unwind.");
+    bound.push_str(&format!("Family D (nesting depth of a reference position; 3 objects: catalog, holder, target string): a reference enclosed in L containers of one value, L in {{0..={}}} + {:?} (every depth far past the reader's limit of 32, then around powers of two), x container shapes {{{}}} (container k holds the integer k and container k+1) x {{only the innermost reference | additionally a reference in every container k, to target (k mod 5)}} x where the value lives {{{}}} x innermost reference -> {{{}}} x ALL 6 slot->id permutations x the 3 id sets of family A (n=3) x starts {:?}; for L=0 the value is the bare reference (one shape). ",
+        dense, levels.iter().filter(|l| **l > dense).collect::<Vec<_>>(),
+        (0..D_SHAPES).map(d_shape_name).collect::<Vec<_>>().join(" | "), (0..D_LOCS).map(d_loc_name).collect::<Vec<_>>().join(" | "), (0..D_TARGETS).map(d_target_name).collect::<Vec<_>>().join(" | "), starts_a));
+    bound.push_str("Families A, B and the extreme starts have at most 7 objects and nesting depth <= 4; family D nests up to the stated depth and runs (like replay) on threads with a 256 MiB stack; bookmark trees are acyclic, so no case can hang or overflow the stack; every library call and the oracle run under catch_unwind. Values nested deeper than 8 containers are recorded in failing inputs in a flat preorder form (keys obj_flat / trailer_flat).");
     let rep = Report::new(&bound, true);
     let mut rep = merge_capped(rep, total);
     rep.obligations = 14;
@@ -799,7 +997,11 @@ pub fn run(thorough: bool) -> Report {
 }
 
 pub fn replay(v: &Value) -> Result<(), String> {
-    let c = case_from_json(v);
-    let fails = quiet(|| check_case(&c));
+    // on a thread with the same large stack as the run: the recorded value may be hundreds of containers deep
+    let v = v.clone();
+    let fails = quiet(|| {
+        std::thread::Builder::new().stack_size(BIG_STACK).spawn(move || { let c = case_from_json(&v); check_case(&c) }).expect("spawn").join()
+            .unwrap_or_else(|_| vec![("oracle-no-panic".to_string(), "replay thread panicked".to_string())])
+    });
     if fails.is_empty() { Ok(()) } else { Err(fails.iter().map(|f| format!("{}: {}", f.0, f.1)).collect::<Vec<_>>().join(" || ")) }
 }
